@@ -29,9 +29,21 @@ def wordsOf (vs : List Val) : Option (List Nat) :=
     | .g x, some l => some (x :: l)
     | _, _ => none) (some [])
 
+/-- the digit-group helpers of the hand-written formatter model (`DecModel/Format.lean`: the functions `C05Format.fmtCode_eq_format`
+is about; `C05GenMidi.…_model` proves the translated helpers equal to them) -/
+def hkMidi (name : String) (_ : Mode) (fl : Nat) (a : List Nat) : Option (List Nat × Nat) :=
+  match name, a with
+  | "split_midi_2", [x] => if x < 2 ^ 32 then some (Fmt.splitMidi2 x [], fl) else none
+  | "split_midi_3", [x] => if x < 2 ^ 32 then some (Fmt.splitMidi3 x [], fl) else none
+  | "split_midi_6", [x] => if x < 1000000000000000000 then some (Fmt.splitMidi6 x [], fl) else none
+  | "split_midi_6_lead", [x] => if x < 1000000000000000000 then some (Fmt.splitMidi6Lead x [], fl) else none
+  | "normalize_10to18", [h, l] =>
+    if l < 2000000000000000000 ∧ h + 1 < 2 ^ 64 then some ([(Fmt.normalize10to18 h l).1, (Fmt.normalize10to18 h l).2], fl) else none
+  | _, _ => none
+
 /-- hand-written helper models: name, mode, incoming flags, argument words ↦ result words and outgoing flags
 (`none`: no model for that name, or input outside the domain on which the model claims to mirror the code) -/
-def hkModels : List (String → Mode → Nat → List Nat → Option (List Nat × Nat)) := [hkRound, hkPack, hkArith]
+def hkModels : List (String → Mode → Nat → List Nat → Option (List Nat × Nat)) := [hkRound, hkPack, hkArith, hkMidi]
 
 def showWords (ws : List Nat) : String := " ".intercalate (ws.map fun w => "G" ++ String.ofList (Nat.toDigits 16 w))
 
